@@ -10,7 +10,7 @@
     output of the real operation on quadratic / abs / box members (exact rationals) and checks every recorded
     sample, constraint and returned normal form.
 """
-import json, os
+import json, os, re
 from core import *
 from core import verdicts as core_verdicts
 
@@ -35,6 +35,9 @@ def model(res, wd, name, depth, grid, simulate=None):
     if simulate:
         r = tlc("Steps", _cfg(depth, grid), wd, workers=1, simulate="num=%d" % simulate,
                 extra=["-depth", str(depth + 1), "-seed", str(seed() + 8)])
+        m = re.search(r"The number of states generated: (\d+)", r["out"])
+        if m:                           # simulation mode reports its count in another form
+            r["generated"] = r["distinct"] = int(m.group(1))
     else:
         r = tlc("Steps", _cfg(depth, grid), wd)
     if r["violated"]:
